@@ -1,6 +1,231 @@
-import Model.LowerBound
+import Proofs.LowerBoundFinal
+import Proofs.LowerBoundTrivial
+/-!
+# C03 — the bin-count lower bound never exceeds an achievable packing
+
+Property theorems only (helper lemmas: `Proofs/LowerBound*.lean`).  Model: `Model/LowerBound.lean`
+(`__cutsq`, `__lb_q`, `_lower_bound_damv`, the geometric bound and `lower_bound_bins` of
+`Instance.__new__`).  Specification: `Pack.Feasible` (rotation by 90° allowed) of `Model/Pack.lean`.
+-/
 namespace Pack
-theorem geo_isCeil : True := trivial
-theorem geo_le_lowerBound : True := trivial
-theorem geo_le_bins : True := trivial
+open LB
+
+/-! ## the geometric half -/
+
+/-- the constructor's `item_area // bin_area (+1)` is `⌈total item area / bin area⌉` -/
+theorem geo_isCeil (I : Inst) (hv : I.Valid) :
+    IsCeilDiv I.totalArea (I.W * I.H) I.lowerBoundGeo := by
+  obtain ⟨hW, _, hH, _⟩ := hv
+  unfold Inst.lowerBoundGeo
+  rw [Int.mul_comm I.H I.W]
+  exact ceilDiv_isCeil _ _ (Int.mul_pos (by omega) (by omega))
+
+/-- clause "at least the area bound": `lower_bound_bins = max(damv, geo) ≥ ⌈area / bin area⌉` -/
+theorem geo_le_lowerBound (I : Inst) : I.lowerBoundGeo ≤ I.lowerBoundBins := by
+  unfold Inst.lowerBoundBins; omega
+
+/-- the area bound never exceeds the number of bins of a feasible packing -/
+theorem geo_le_bins (I : Inst) (rows : List Row) (k : Int) (hv : I.Valid)
+    (hf : Feasible I rows k) : I.lowerBoundGeo ≤ k := by
+  have h := feasible_area_le I rows k hv hf
+  obtain ⟨hW, _, hH, _⟩ := hv
+  unfold Inst.lowerBoundGeo
+  rw [Int.mul_comm I.H I.W]
+  exact ceilDiv_le _ _ _ (Int.mul_pos (by omega) (by omega)) h
+
+/-- a feasible packing of a valid instance uses at least one bin -/
+theorem bins_pos (I : Inst) (rows : List Row) (k : Int) (hv : I.Valid) (hf : Feasible I rows k) :
+    1 ≤ k := by
+  have hn := Inst.nItems_pos I hv
+  obtain ⟨hlen, _, _, _, _, hbin, _⟩ := hf
+  cases rows with
+  | nil => simp at hlen; omega
+  | cons a t => have := hbin a (by simp); omega
+
+/-! ## no Python exception for valid instances -/
+
+/-- for a valid instance no divisor of `__lb_q` is zero and the range of `q` is not empty
+(the model's total functions agree with Python) -/
+theorem damv_defined (I : Inst) (hv : I.Valid) : damvRaises I.W I.H = false := by
+  obtain ⟨hW, _, hH, _⟩ := hv
+  unfold damvRaises frame
+  have key : ∀ a b : Int, 1 ≤ b → b ≤ a → ((b / 2 + 1 ≤ 0 || a == 0 || a / (b / 2 + 1) == 0) = false) := by
+    intro a b hb hab
+    have hm : 0 < b / 2 + 1 := by omega
+    have : 1 ≤ a / (b / 2 + 1) := Int.le_ediv_of_mul_le hm (by omega)
+    simp; omega
+  split
+  · exact key _ _ (by omega) (by omega)
+  · exact key _ _ (by omega) (by omega)
+
+/-- the fuel of the model's `while h > 1` loop never runs out -/
+theorem cutLoop_fuel_enough (f : Nat) (w h : Int) (hf : h.toNat ≤ f) :
+    cutLoop f w h = cutLoop h.toNat w h := cutLoop_fuel f h.toNat w h hf (Nat.le_refl _)
+
+/-! ## layer 1: the squares cut from the items tile them -/
+
+/-- `__cutsq` returns a non-increasing list -/
+theorem cutsq_sorted (items : List Item) : (cutsq items).Pairwise (· ≥ ·) := sortDesc_sorted _
+
+/-- **CUTSQ tiles the items**: from every feasible packing of the items (rotation allowed) into `k`
+bins one gets a placement of *all* squares of `__cutsq` — pairwise non-overlapping, inside the
+bins — into the same `k` bins. -/
+theorem cutsq_tiles (I : Inst) (rows : List Row) (k : Int) (hv : I.Valid) (hf : Feasible I rows k) :
+    ∃ P : List Row, SqPacking I.W I.H k P ∧ (cutsq I.items).Perm (P.map Row.side) := by
+  obtain ⟨P, hP, hperm⟩ := exists_square_packing I rows k hv hf
+  exact ⟨P, hP, (sortDesc_perm _).trans hperm.symm⟩
+
+/-! ## layers 2 and 4: the squares of one bin -/
+
+/-- **S1/S2/S3 exclusivity and the waste strips** (frame `1 ≤ H ≤ W`, `2q ≤ H`): for the side
+lengths `L` of pairwise non-overlapping squares in one bin: at most one square of S1 ∪ S2; an S1
+square excludes every square of side `≥ q`; an S2 square allows at most one S3 square, which fits
+beside it; S3 squares have total side `≤ W` and number `≤ W/(H/2+1)`; the area of S2 ∪ S3 ∪ S4 plus
+the waste strips `l·(H−l)` of S23 is at most `W·H`. -/
+theorem bin_facts (W H q : Int) (hH : 1 ≤ H) (hHW : H ≤ W) (hqH : 2 * q ≤ H) (Q : List Row)
+    (hQ : BinSquares W H Q) : BinOK W H q (Q.map Row.side) := binOK_of_squares hH hHW hqH Q hQ
+
+/-! ## layer 3: the greedy matching -/
+
+/-- **the greedy removal of `__lb_q` dominates every feasible S2–S3 assignment**: whatever S3
+squares (`b.2`, at most one, fitting) really share a bin with the S2 squares `b.1`, the S3 squares
+left over by the greedy loop have no larger total side and are no more than the really left over
+`others`. -/
+theorem greedy_matching_dominates (W : Int) (s2asc s3 others : List Int)
+    (bins2 : List (Int × List Int))
+    (hs2 : s2asc.Pairwise (· ≤ ·)) (hs3 : s3.Pairwise (· ≥ ·)) (hnn : ∀ x ∈ s3, 0 ≤ x)
+    (hb : List.Perm s2asc (bins2.map Prod.fst))
+    (hfit : ∀ b ∈ bins2, b.2.length ≤ 1 ∧ ∀ x ∈ b.2, x ≤ W - b.1)
+    (hp : List.Perm s3 (bins2.flatMap Prod.snd ++ others)) :
+    (greedy W s2asc s3).sum ≤ others.sum ∧ (greedy W s2asc s3).length ≤ others.length :=
+  greedy_dominates W s2asc s3 others bins2 hs2 hs3 hnn hb hfit hp
+
+/-! ## layer 5 and the full statement -/
+
+/-- `__lb_q(W, H, q, squares) ≤ k` for every placement of the (sorted) squares into `k` bins -/
+theorem lbQ_le_bins (W H q k : Int) (hH : 1 ≤ H) (hHW : H ≤ W) (hqH : 2 * q ≤ H) (hk : 0 ≤ k)
+    (P : List Row) (hP : SqPacking W H k P) (sq : List Int) (hs : sq.Pairwise (· ≥ ·))
+    (hp : sq.Perm (P.map Row.side)) : lbQ W H q sq ≤ k :=
+  lbQ_le_of_sqPacking W H q k hH hHW hqH hk P hP sq hs hp
+
+/-- the Dell'Amico/Martello/Vigo bound never exceeds the number of bins of a feasible packing -/
+theorem damv_le_bins (I : Inst) (rows : List Row) (k : Int) (hv : I.Valid)
+    (hf : Feasible I rows k) : lowerBoundDamv I.W I.H I.items ≤ k := by
+  have hk := bins_pos I rows k hv hf
+  obtain ⟨P, hP, hperm⟩ := cutsq_tiles I rows k hv hf
+  have hW : 1 ≤ I.W := hv.1
+  have hH : 1 ≤ I.H := hv.2.2.1
+  unfold lowerBoundDamv
+  -- a placement in the frame with width ≥ height
+  have key : ∃ P' : List Row, SqPacking (frame I.W I.H).1 (frame I.W I.H).2 k P' ∧
+      (cutsq I.items).Perm (P'.map Row.side) ∧ 1 ≤ (frame I.W I.H).2 ∧
+      (frame I.W I.H).2 ≤ (frame I.W I.H).1 := by
+    unfold frame
+    split
+    · obtain ⟨h1, h2⟩ := sqPacking_transpose hP
+      exact ⟨P.map transpose, h1, by rw [h2]; exact hperm, by simpa using hW, by simp; omega⟩
+    · exact ⟨P, hP, hperm, by simpa using hH, by simp; omega⟩
+  obtain ⟨P', hP', hperm', hf2, hf21⟩ := key
+  have hmax : maxOf ((qRange (frame I.W I.H).2).map
+      (fun q => lbQ (frame I.W I.H).1 (frame I.W I.H).2 q (cutsq I.items))) ≤ k := by
+    apply maxOf_le _ _ (by omega)
+    intro x hx
+    obtain ⟨q, hq, rfl⟩ := List.mem_map.mp hx
+    exact lbQ_le_bins _ _ q k hf2 hf21 (mem_qRange hq).2 (by omega) P' hP' _ (cutsq_sorted _) hperm'
+  simp only
+  omega
+
+/-- **C03, full statement**: for every instance the constructor accepts and every feasible
+packing of it (90° rotation allowed) into `k` bins, `lower_bound_bins ≤ k`.  In particular the
+bound never exceeds the optimum. -/
+theorem lowerBound_le_bins (I : Inst) (rows : List Row) (k : Int) (hv : I.Valid)
+    (hf : Feasible I rows k) : I.lowerBoundBins ≤ k := by
+  have h1 := damv_le_bins I rows k hv hf
+  have h2 := geo_le_bins I rows k hv hf
+  unfold Inst.lowerBoundBins
+  omega
+
+/-- the full statement as the `Prop` kept visible in `Model/LowerBound.lean` -/
+theorem lowerBoundLeBins : LowerBoundLeBins := fun I rows k hv hf => lowerBound_le_bins I rows k hv hf
+
+/-- consequence ("no packing produced by any encoding uses fewer bins than the bound"): a packing
+with fewer bins than `lower_bound_bins` is not feasible -/
+theorem fewer_bins_infeasible (I : Inst) (rows : List Row) (k : Int) (hv : I.Valid)
+    (hk : k < I.lowerBoundBins) : ¬ Feasible I rows k := fun hf => by
+  have := lowerBound_le_bins I rows k hv hf; omega
+
+/-- `lower_bound_bins ≥ 1` (the lower limit of the constructor's final range check) -/
+theorem lowerBound_pos (I : Inst) : 1 ≤ I.lowerBoundBins := by
+  unfold Inst.lowerBoundBins lowerBoundDamv; simp only; omega
+
+/-! ## the observers `BinCount.lower_bound()`, `InstanceSpace.min_bins`; the final range checks -/
+
+/-- one item per bin is feasible, hence `lower_bound_bins ≤ n_items` -/
+theorem lowerBound_le_nItems (I : Inst) (hv : I.Valid) : I.lowerBoundBins ≤ I.nItems := by
+  obtain ⟨rows, hf⟩ := exists_onePerBin I hv
+  exact lowerBound_le_bins I rows _ hv hf
+
+/-- `InstanceSpace.min_bins = min(lower_bound_bins, n_items)` is the instance's bound -/
+theorem minBins_eq (I : Inst) (hv : I.Valid) : min I.lowerBoundBins I.nItems = I.lowerBoundBins := by
+  have := lowerBound_le_nItems I hv; omega
+
+theorem totalArea_pos (I : Inst) (hv : I.Valid) : 1 ≤ I.totalArea := by
+  obtain ⟨_, _, _, _, hne, _, hitems, _⟩ := hv
+  have hpos : ∀ it ∈ I.items, 1 ≤ it.w * it.h * it.rep := by
+    intro it hit
+    obtain ⟨h1, _, h2, _, h3, _⟩ := hitems it hit
+    have : 1 ≤ it.w * it.h := by nlinarith
+    nlinarith
+  unfold Inst.totalArea
+  cases hI : I.items with
+  | nil => rw [hI] at hne; simp at hne
+  | cons it rest =>
+    rw [hI] at hpos
+    simp only [List.map_cons, List.sum_cons]
+    have h1 := hpos it (by simp)
+    have h2 := ListLemmas.sum_map_nonneg rest (fun it => it.w * it.h * it.rep) (fun b hb => by
+      have := hpos b (by simp [hb]); omega)
+    omega
+
+/-- the constructor's final `check_int_range(·, 1, 1_000_000_000_000)` on the geometric and on the
+DAMV bound never rejects an instance that passed the earlier checks -/
+theorem bounds_in_range (I : Inst) (hv : I.Valid) :
+    1 ≤ I.lowerBoundGeo ∧ I.lowerBoundGeo ≤ 1000000000000 ∧
+    1 ≤ lowerBoundDamv I.W I.H I.items ∧ lowerBoundDamv I.W I.H I.items ≤ 1000000000000 := by
+  have h1 := lowerBound_le_nItems I hv
+  have h2 : I.nItems ≤ 1000000000000 := hv.2.2.2.2.2.2.2
+  have h3 := totalArea_pos I hv
+  have h4 := geo_isCeil I hv
+  have hWH : 0 < I.W * I.H := Int.mul_pos (by have := hv.1; omega) (by have := hv.2.2.1; omega)
+  have h5 : 1 ≤ I.lowerBoundGeo := by
+    by_contra hc
+    have : I.lowerBoundGeo * (I.W * I.H) ≤ 0 * (I.W * I.H) :=
+      Int.mul_le_mul_of_nonneg_right (by omega) (by omega)
+    have := h4.2
+    omega
+  have h6 : 1 ≤ lowerBoundDamv I.W I.H I.items := by unfold lowerBoundDamv; simp only; omega
+  unfold Inst.lowerBoundBins at h1
+  omega
+
+/-! ## the hypotheses are satisfiable, the bound can be tight and can exceed the area bound -/
+
+/-- two 6×6 squares in 10×10 bins: area bound 1, DAMV bound 2, and 2 bins are feasible -/
+def exI : Inst := ⟨10, 10, [⟨6, 6, 2⟩]⟩
+def exRows : List Row := [⟨1, 1, 0, 0, 6, 6⟩, ⟨1, 2, 4, 4, 10, 10⟩]
+
+example : exI.Valid := by decide
+example : Feasible exI exRows 2 := by decide
+example : exI.lowerBoundGeo = 1 := by decide
+example : exI.lowerBoundBins = 2 := by decide
+example : ¬ Feasible exI [⟨1, 1, 0, 0, 6, 6⟩, ⟨1, 1, 4, 4, 10, 10⟩] 1 := by decide
+
+/-- a rotated non-square item: 7×3 items in 5×8 bins (frame swap, rotation, cutting 7×3 → 3,3) -/
+def exJ : Inst := ⟨5, 8, [⟨7, 3, 2⟩, ⟨2, 2, 1⟩]⟩
+def exRowsJ : List Row := [⟨1, 1, 0, 0, 3, 7⟩, ⟨1, 1, 0, 7, 5, 8⟩, ⟨2, 1, 3, 0, 5, 2⟩]
+example : exJ.Valid := by decide
+example : cutsq exJ.items = [3, 3, 3, 3, 2] := by decide
+example : ¬ Feasible exJ exRowsJ 1 := by decide   -- the second 7×3 does not fit as 5×1
+example : Feasible exJ [⟨1, 1, 0, 0, 3, 7⟩, ⟨1, 2, 0, 0, 3, 7⟩, ⟨2, 1, 3, 0, 5, 2⟩] 2 := by decide
+example : exJ.lowerBoundBins = 2 := by decide
+
 end Pack
